@@ -10,3 +10,11 @@ open Dashu.Props.C05
 #print axioms cmp_wrong_without_canon
 #print axioms producers_canonical
 #print axioms signed_producers_canonical
+#print axioms float_cmp
+#print axioms float_cmp_needs_precision_bound
+#print axioms float_normalize
+#print axioms float_eq_iff_cmp_equal
+#print axioms ratio_cmp
+#print axioms relaxed_eq
+#print axioms rbig_eq
+#print axioms ratio_cmp_equal_iff_eq
